@@ -8,12 +8,14 @@ import (
 	"strings"
 	"sync"
 	"sync/atomic"
+	"time"
 
 	"github.com/prometheus/client_golang/prometheus"
 
 	"github.com/form3tech-oss/f1/v2/internal/log"
 	"github.com/form3tech-oss/f1/v2/internal/metrics"
 	"github.com/form3tech-oss/f1/v2/internal/progress"
+	"github.com/form3tech-oss/f1/v2/internal/verifhook"
 	"github.com/form3tech-oss/f1/v2/internal/workers"
 	"github.com/form3tech-oss/f1/v2/pkg/f1/scenarios"
 	f1testing "github.com/form3tech-oss/f1/v2/pkg/f1/testing"
@@ -157,6 +159,20 @@ func runC02(c *ctx, cfg c02cfg, seed int64) rTrace {
 			cand = append(cand, n)
 		}
 		if len(cand) == 0 {
+			// nothing can move except the canceller: the pool is idle
+			parked := 0
+			for _, p := range s.Procs() {
+				if p.State == sched.Parked {
+					parked++
+				}
+			}
+			tdone := true
+			if p := s.Proc("T"); p != nil && p.State != sched.Done && p.Point != "T.last" {
+				tdone = false
+			}
+			if tdone && len(en) > 0 {
+				add(rEv{K: "idle", A: int64(parked)})
+			}
 			cand = en
 		}
 		if len(cand) == 0 {
@@ -233,6 +249,143 @@ func init() {
 			w.write(runC02(c, cfg, c.seed*100003+int64(k)))
 		}
 		fmt.Println("c02 schedules:", w.n)
+		return nil
+	})
+}
+
+// ---- free-running stress on the real pool (no gating): interleavings INSIDE the atomic
+// operations' neighbourhood that yield-point scheduling cannot reach (e.g. a non-atomic set()).
+
+func newStressPool(nworkers int, body func(t *f1testing.T)) (*workers.PoolManager, *workers.TriggerPool, *progress.Stats) {
+	stats := &progress.Stats{}
+	m := metrics.NewInstance(prometheus.NewRegistry(), false, nil)
+	scn := &scenarios.Scenario{Name: "scn", ScenarioFn: func(t *f1testing.T) f1testing.RunFn { return body }}
+	lg := discardLogger()
+	as := workers.NewActiveScenario(scn, m, stats, lg, log.NewSlogLogrusLogger(lg))
+	as.Setup()
+	pm := workers.New(0, as)
+	return pm, pm.NewTriggerPool(nworkers), stats
+}
+
+// stressConservation: a tick storm supersedes pending work while busy workers take jobs.
+func stressConservation(c *ctx, nworkers, tick int, dur time.Duration) rTrace {
+	tr := rTrace{Cfg: rCfg{Name: "pool-stress-conservation", Mode: "constant", RateMode: true, Conc: nworkers, MaxDurUs: 1_000_000_000,
+		WaitUs: 1_000_000, PoolOnly: true, Light: true, Args: fmt.Sprintf("workers=%d tick=%d dur=%s", nworkers, tick, dur)}}
+	var started atomic.Int64
+	pm, pool, stats := newStressPool(nworkers, func(t *f1testing.T) { started.Add(1) })
+	ctx, cancel := context.WithCancel(context.Background())
+	workerCtx := pool.Start(ctx)
+	var requested int64
+	deadline := time.Now().Add(dur)
+	for time.Now().Before(deadline) {
+		for k := 0; k < 64; k++ {
+			pool.Trigger(workerCtx, tick)
+			requested += int64(tick)
+		}
+	}
+	time.Sleep(2 * time.Millisecond) // triggering has stopped; no tick overlaps the stop path
+	cancel()
+	select {
+	case <-pm.WaitForCompletion():
+	case <-time.After(5 * time.Second):
+		tr.Ev = append(tr.Ev, rEv{K: "noreturn", S: "pool did not complete 5 s after cancel"})
+	}
+	tot := stats.Total()
+	n := started.Load()
+	tr.Ev = append(tr.Ev, rEv{K: "setup", A: 1}, rEv{K: "tick", A: requested})
+	if n > 0 {
+		tr.Ev = append(tr.Ev, rEv{K: "idrange", A: 1, B: n})
+	}
+	if tot.DroppedIterationCount > 0 {
+		tr.Ev = append(tr.Ev, rEv{K: "dropev", A: int64(tot.DroppedIterationCount)})
+	}
+	tr.Ev = append(tr.Ev, rEv{K: "ret", A: int64(tot.SuccessfulIterationDurations.Count), B: int64(tot.FailedIterationDurations.Count), D: int64(tot.DroppedIterationCount)})
+	return tr
+}
+
+// stressUsable: every tick requests one job per worker and the bodies only finish once ALL workers
+// are executing at the same time; a stranded (lost wake-up) worker makes a round time out.
+func stressUsable(c *ctx, nworkers int, dur time.Duration) rTrace {
+	tr := rTrace{Cfg: rCfg{Name: "pool-stress-usable", Mode: "constant", RateMode: true, Conc: nworkers, MaxDurUs: 1_000_000_000,
+		WaitUs: 1_000_000, PoolOnly: true, Light: true, Rendezvous: true, Args: fmt.Sprintf("workers=%d dur=%s", nworkers, dur)}}
+	var arrived atomic.Int64
+	var mu sync.Mutex
+	gate := make(chan struct{})
+	var started atomic.Int64
+	pm, pool, stats := newStressPool(nworkers, func(t *f1testing.T) {
+		started.Add(1)
+		mu.Lock()
+		g := gate
+		mu.Unlock()
+		if arrived.Add(1) == int64(nworkers) {
+			close(g)
+		}
+		select {
+		case <-g:
+		case <-time.After(3 * time.Second):
+		}
+	})
+	ctx, cancel := context.WithCancel(context.Background())
+	workerCtx := pool.Start(ctx)
+	rounds, ok := 0, true
+	var requested int64
+	deadline := time.Now().Add(dur)
+	for ok && time.Now().Before(deadline) {
+		mu.Lock()
+		gate = make(chan struct{})
+		g := gate
+		arrived.Store(0)
+		mu.Unlock()
+		pool.Trigger(workerCtx, nworkers)
+		requested += int64(nworkers)
+		select {
+		case <-g:
+			rounds++
+		case <-time.After(2 * time.Second):
+			ok = false
+		}
+		for k := c.rng.Intn(200); k > 0; k-- { // 0-few microseconds before the next tick
+			_ = k
+		}
+	}
+	cancel()
+	select {
+	case <-pm.WaitForCompletion():
+	case <-time.After(5 * time.Second):
+	}
+	tot := stats.Total()
+	tr.Ev = append(tr.Ev, rEv{K: "setup", A: 1}, rEv{K: "tick", A: requested})
+	if n := started.Load(); n > 0 {
+		tr.Ev = append(tr.Ev, rEv{K: "idrange", A: 1, B: n})
+	}
+	if tot.DroppedIterationCount > 0 {
+		tr.Ev = append(tr.Ev, rEv{K: "dropev", A: int64(tot.DroppedIterationCount)})
+	}
+	rv := int64(0)
+	if ok {
+		rv = 1
+	}
+	tr.Ev = append(tr.Ev, rEv{K: "rv", A: rv, B: int64(rounds)},
+		rEv{K: "ret", A: int64(tot.SuccessfulIterationDurations.Count), B: int64(tot.FailedIterationDurations.Count), D: int64(tot.DroppedIterationCount)})
+	tr.Cfg.Args += fmt.Sprintf(" rounds=%d", rounds)
+	return tr
+}
+
+func init() {
+	register("c02stress", func(c *ctx) error {
+		w, err := newNDJSON(filepath.Join(c.out, "c02stress.ndjson"))
+		if err != nil {
+			return err
+		}
+		defer w.close()
+		verifhook.Install(nil)
+		d := time.Duration(c.pick(400, 4000)) * time.Millisecond
+		for _, wk := range []int{2, 8} {
+			w.write(stressConservation(c, wk, 32, d))
+			w.write(stressUsable(c, wk, d))
+		}
+		w.write(stressConservation(c, 16, 3, d))
+		fmt.Println("c02 stress traces:", w.n)
 		return nil
 	})
 }
